@@ -565,7 +565,7 @@ Proof.
     rewrite (column_from_one_ok slowest slowest inp st _ l Hsz Fs Hl1 Hl2). cbn [andb].
     destruct (Nat.even (length (in_durs inp))).
     + destruct Hmed as (m0 & m1 & Hm0 & Hm1 & (I0 & I1 & Hne & _ & Hcol & Hcnt)).
-      unfold median_from_two. apply existsb_exists. exists m0. split; [exact I0|].
+      unfold median_from_two. cbv zeta. apply existsb_exists. exists m0. split; [exact I0|].
       rewrite Hm0, N.eqb_refl. cbn [andb]. apply existsb_exists. exists m1. split; [exact I1|].
       rewrite Hm1, N.eqb_refl. apply N.eqb_neq in Hne. rewrite Hne. cbn [negb andb].
       apply andb_true_iff. split.
